@@ -128,11 +128,10 @@ fn exec_call(c: &Call, files: &[String], sources: &[String]) -> Resp {
     }
 }
 
-fn child_main(inp: &str, outp: &str) {
+fn child_main(inp: &str, outp: &str, start: usize) {
     let v: Value = serde_json::from_str(&fs::read_to_string(inp).unwrap()).unwrap();
     let files: Vec<String> = v["files"].as_array().unwrap().iter().map(|x| x.as_str().unwrap().to_string()).collect();
     let sources: Vec<String> = v["sources"].as_array().unwrap().iter().map(|x| x.as_str().unwrap().to_string()).collect();
-    let start = v["start"].as_u64().unwrap() as usize;
     let hs: Vec<Vec<Call>> = v["histories"].as_array().unwrap().iter()
         .map(|h| h.as_array().unwrap().iter().map(call_from_json).collect()).collect();
     let mut out = fs::OpenOptions::new().create(true).append(true).open(outp).unwrap();
@@ -187,23 +186,27 @@ fn panic_message(stderr: &str) -> String {
 
 fn run_batch(dir: &Path, tag: &str, files: &[String], sources: &[String], hs: &[Vec<Call>], valgrind: bool) -> BatchResult {
     let inp = dir.join(format!("{}.in.json", tag));
-    let outp = dir.join(format!("{}.out.log", tag));
-    let _ = fs::remove_file(&outp);
     let mut start = 0usize;
     let mut aborts: HashMap<usize, String> = HashMap::new();
     let mut vg_errors = 0u64;
     let mut vg_log = String::new();
     let exe = std::env::current_exe().unwrap();
     let hs_json: Vec<Value> = hs.iter().map(|h| Value::Array(h.iter().map(call_json).collect())).collect();
-    loop {
-        fs::write(&inp, serde_json::to_string(&json!({"files": files, "sources": sources, "start": start, "histories": hs_json})).unwrap()).unwrap();
+    fs::write(&inp, serde_json::to_string(&json!({"files": files, "sources": sources, "histories": hs_json})).unwrap()).unwrap();
+    let mut log = String::new();     // all attempts' logs, concatenated
+    let mut attempt = 0usize;
+    while start < hs.len() {
+        // one output file per attempt, so that finding where an attempt died costs O(that attempt)
+        let outp = dir.join(format!("{}.out.{}.log", tag, attempt));
+        attempt += 1;
+        let _ = fs::remove_file(&outp);
         let mut cmd = if valgrind {
             let mut c = Command::new("valgrind");
             c.args(["--quiet", "--error-exitcode=97", "--leak-check=no", "--num-callers=12"]).arg(&exe);
             c
         } else { Command::new(&exe) };
-        let outc = cmd.arg("child").arg(&inp).arg(&outp).env("RUST_BACKTRACE", "0").stdin(Stdio::null()).stdout(Stdio::null())
-            .stderr(Stdio::piped()).output().expect("spawn child");
+        let outc = cmd.arg("child").arg(&inp).arg(&outp).arg(start.to_string()).env("RUST_BACKTRACE", "0")
+            .stdin(Stdio::null()).stdout(Stdio::null()).stderr(Stdio::piped()).output().expect("spawn child");
         let stderr = String::from_utf8_lossy(&outc.stderr).into_owned();
         if valgrind {
             let n = stderr.lines().filter(|l| l.starts_with("==") && (l.contains("Invalid ") || l.contains("Mismatched free")
@@ -214,11 +217,12 @@ fn run_batch(dir: &Path, tag: &str, files: &[String], sources: &[String], hs: &[
                 vg_log.push_str(&stderr.lines().filter(|l| l.starts_with("==")).take(60).collect::<Vec<_>>().join("\n"));
             }
         }
+        let part = fs::read_to_string(&outp).unwrap_or_default();
+        let _ = fs::remove_file(&outp);
         // which history was last begun but not done?
-        let log = fs::read_to_string(&outp).unwrap_or_default();
         let mut last_done: Option<usize> = None;
         let mut last_begun: Option<usize> = None;
-        for l in log.lines() {
+        for l in part.lines() {
             let mut it = l.split(' ');
             match it.next() {
                 Some("D") => last_done = it.next().and_then(|x| x.parse().ok()),
@@ -226,8 +230,8 @@ fn run_batch(dir: &Path, tag: &str, files: &[String], sources: &[String], hs: &[
                 _ => {}
             }
         }
-        let finished = last_done.map(|d| d + 1 == hs.len()).unwrap_or(hs.is_empty());
-        if finished { break; }
+        log.push_str(&part);
+        if last_done.map(|d| d + 1 == hs.len()).unwrap_or(false) { break; }
         // aborted inside history k
         let k = match (last_begun, last_done) {
             (Some(b), Some(d)) if b > d => b,
@@ -240,10 +244,8 @@ fn run_batch(dir: &Path, tag: &str, files: &[String], sources: &[String], hs: &[
         };
         aborts.insert(k, panic_message(&stderr));
         start = k + 1;
-        if start >= hs.len() { break; }
     }
     // parse the log
-    let log = fs::read_to_string(&outp).unwrap_or_default();
     let mut resps: Vec<Vec<Resp>> = vec![vec![]; hs.len()];
     let mut hist: Vec<Vec<Call>> = vec![vec![]; hs.len()];
     let mut begun: Vec<usize> = vec![0; hs.len()];
@@ -273,26 +275,31 @@ fn run_batch(dir: &Path, tag: &str, files: &[String], sources: &[String], hs: &[
         }
     }
     let _ = fs::remove_file(&inp);
-    let _ = fs::remove_file(&outp);
     BatchResult { hist, resps, abort_msgs, valgrind_errors: vg_errors, valgrind_log: vg_log }
 }
 
-/// Splits the histories over `par` concurrently running children.
+/// Splits the histories round-robin over `par` concurrently running children (so that the histories
+/// that abort, each costing a process restart, are spread evenly).
 fn run_parallel(dir: &Path, tag: &str, files: &[String], sources: &[String], hs: &[Vec<Call>], valgrind: bool, par: usize) -> BatchResult {
     let par = par.max(1).min(hs.len().max(1));
-    let chunk = (hs.len() + par - 1) / par.max(1);
+    let mut buckets: Vec<Vec<Vec<Call>>> = vec![vec![]; par];
+    for (i, h) in hs.iter().enumerate() { buckets[i % par].push(h.clone()); }
     let mut parts: Vec<BatchResult> = vec![];
     std::thread::scope(|sc| {
         let mut hds = vec![];
-        for (j, part) in hs.chunks(chunk.max(1)).enumerate() {
+        for (j, part) in buckets.iter().enumerate() {
             let tag = format!("{}-{}", tag, j);
             hds.push(sc.spawn(move || run_batch(dir, &tag, files, sources, part, valgrind)));
         }
         for h in hds { parts.push(h.join().unwrap()); }
     });
-    let mut all = BatchResult { hist: vec![], resps: vec![], abort_msgs: vec![], valgrind_errors: 0, valgrind_log: String::new() };
-    for p in parts {
-        all.hist.extend(p.hist); all.resps.extend(p.resps); all.abort_msgs.extend(p.abort_msgs);
+    let mut all = BatchResult { hist: vec![vec![]; hs.len()], resps: vec![vec![]; hs.len()], abort_msgs: vec![None; hs.len()],
+                                valgrind_errors: 0, valgrind_log: String::new() };
+    for (j, p) in parts.into_iter().enumerate() {
+        for (k, ((h, r), a)) in p.hist.into_iter().zip(p.resps.into_iter()).zip(p.abort_msgs.into_iter()).enumerate() {
+            let i = k * par + j;
+            all.hist[i] = h; all.resps[i] = r; all.abort_msgs[i] = a;
+        }
         all.valgrind_errors += p.valgrind_errors; all.valgrind_log.push_str(&p.valgrind_log);
     }
     all
@@ -529,7 +536,7 @@ fn gen_exhaustive(len: usize, alphabet: &[Call]) -> Vec<Vec<Call>> {
 
 fn main() {
     let argv: Vec<String> = std::env::args().collect();
-    if argv.len() >= 4 && argv[1] == "child" { child_main(&argv[2], &argv[3]); return; }
+    if argv.len() >= 5 && argv[1] == "child" { child_main(&argv[2], &argv[3], argv[4].parse().unwrap()); return; }
     silence_panics();
     let args = parse_args();
     let thorough = args.tier == "thorough";
